@@ -92,6 +92,10 @@ func (c *CloneCase) runImpl() string {
 	if (e1 == nil) != (e2 == nil) {
 		lawParent = "0"
 	}
+	// the original twice under one parent shares an object: never resolves
+	if _, e3 := (&js.Schema{AllOf: []*js.Schema{c.S, c.S}}).Resolve(nil); e1 == nil && e3 == nil {
+		lawParent = "0"
+	}
 	// independence, both directions
 	cl2 := c.S.CloneSchemas()
 	scribble(cl2)
